@@ -1,6 +1,589 @@
+//! C12 whole-compiler differential exploration (label: explored, not proved).
+//!
+//! usage: h12c <out_dir> <tier>        (VERIF_SEED from the environment)
+//!
+//! Each project is compiled once per configuration, every time in a fresh database:
+//!   threads  : rayon pool of 1 / 2 / 4 / 16 threads (`ThreadPoolBuilder`, `pool.install`)
+//!   warm-up  : `compile_prepared_db_program_artifact` (-> `ensure_diagnostics` +
+//!              `warmup_functions_blocking`, parallel when the pool has > 1 thread) versus
+//!              `compile_prepared_db_program` (no warm-up at all)
+//!   prefix   : none, or a seeded random sequence of unrelated queries asked first on the same
+//!              database (syntax / semantic / lowering diagnostics of random modules, Sierra of random
+//!              corelib and project functions), sequentially or in parallel on database clones
+//! and the artifacts must be byte-identical to those of the baseline configuration:
+//!   diagnostics text, Sierra with debug names (`replace_sierra_ids_in_program`), Sierra with
+//!   canonical ids (`CanonicalReplacer`, debug names removed), CASM text; for the Starknet project the
+//!   contract class JSON and the CASM contract class JSON.
+//! The Sierra text with the *raw* interned ids is recorded too: it is allowed to differ (that is
+//! the schedule-dependent state the canonical replacer erases) and the number of configurations in
+//! which it does is reported.
+use std::fmt::Write as _;
+use std::fs;
+use std::panic::AssertUnwindSafe;
+use std::path::{Path, PathBuf};
+use std::time::Instant;
+
+use cairo_lang_compiler::db::RootDatabase;
+use cairo_lang_compiler::diagnostics::DiagnosticsReporter;
+use cairo_lang_compiler::project::setup_project;
+use cairo_lang_compiler::{CompilerConfig, compile_prepared_db, compile_prepared_db_program, compile_prepared_db_program_artifact};
+use cairo_lang_sierra::debug_info::Annotations;
+use cairo_lang_defs::db::DefsGroup;
+use cairo_lang_defs::ids::{ModuleId, TopLevelLanguageElementId};
+use cairo_lang_filesystem::db::{FilesGroup, init_dev_corelib};
+use cairo_lang_filesystem::ids::{CrateInput, FileId};
+use cairo_lang_lowering::db::LoweringGroup;
+use cairo_lang_lowering::ids::ConcreteFunctionWithBodyId;
+use cairo_lang_lowering::optimizations::config::Optimizations;
+use cairo_lang_lowering::utils::InliningStrategy;
+use cairo_lang_semantic::db::SemanticGroup;
+use cairo_lang_sierra::program::{GenStatement, GenericArg, Program};
+use cairo_lang_sierra_generator::canonical_id_replacer::CanonicalReplacer;
+use cairo_lang_sierra_generator::db::SierraGenGroup;
+use cairo_lang_sierra_generator::replace_ids::{SierraIdReplacer, replace_sierra_ids_in_program};
+use cairo_lang_sierra_to_casm::compiler::{SierraToCasmConfig, compile};
+use cairo_lang_sierra_to_casm::metadata::{MetadataComputationConfig, calc_metadata, calc_metadata_ap_change_only};
+use cairo_lang_sierra_type_size::ProgramRegistryInfo;
+use cairo_lang_starknet::compile::compile_prepared_db as starknet_compile_prepared_db;
+use cairo_lang_starknet::contract::find_contracts;
+use cairo_lang_starknet::starknet_plugin_suite;
+use cairo_lang_starknet_classes::casm_contract_class::CasmContractClass;
+use cairo_lang_utils::CloneableDatabase;
+use rayon::iter::{IntoParallelIterator, ParallelIterator};
+use salsa::Database;
+use vcommon::*;
+
+const CORELIB: &str = "/repo/corelib/src";
+
+#[derive(Clone)]
+struct Project {
+    name: &'static str,
+    path: PathBuf,
+    /// Starknet project: the contracts (full paths) compiled together by `compile_prepared_db`
+    starknet_contract: Option<&'static [&'static str]>,
+}
+
+#[derive(Clone, Debug)]
+struct Config {
+    threads: usize,
+    warmup: bool,
+    /// seed of the query prefix, number of queries, run on clones in parallel?
+    prefix: Option<(u64, usize, bool)>,
+    /// another project set up in the same database and compiled completely before this one
+    other_first: Option<PathBuf>,
+}
+impl Config {
+    fn label(&self) -> String {
+        format!(
+            "threads={} warmup={} prefix={}{}",
+            self.threads,
+            if self.warmup { "on" } else { "off" },
+            match self.prefix {
+                None => "none".to_string(),
+                Some((s, n, par)) => format!("{}q/seed{}/{}", n, s, if par { "parallel-clones" } else { "sequential" }),
+            },
+            if self.other_first.is_some() { " other-project-compiled-first" } else { "" }
+        )
+    }
+}
+
+#[derive(Default, Clone)]
+struct Artifacts {
+    /// (name, text); compared pairwise with the baseline
+    compared: Vec<(&'static str, String)>,
+    sierra_raw: String,
+    prefix_log: Vec<String>,
+    seconds: f64,
+}
+
+// ---------------------------------------------------------------------------------------------
+fn strip_names(p: &Program) -> Program {
+    let mut q = p.clone();
+    let ga = |gs: &mut Vec<GenericArg>| {
+        for g in gs {
+            match g {
+                GenericArg::Type(t) => t.debug_name = None,
+                GenericArg::UserFunc(f) => f.debug_name = None,
+                GenericArg::Libfunc(l) => l.debug_name = None,
+                _ => {}
+            }
+        }
+    };
+    for d in &mut q.type_declarations {
+        d.id.debug_name = None;
+        ga(&mut d.long_id.generic_args);
+    }
+    for d in &mut q.libfunc_declarations {
+        d.id.debug_name = None;
+        ga(&mut d.long_id.generic_args);
+    }
+    for st in &mut q.statements {
+        if let GenStatement::Invocation(i) = st {
+            i.libfunc_id.debug_name = None;
+        }
+    }
+    for f in &mut q.funcs {
+        f.id.debug_name = None;
+        for p in &mut f.params {
+            p.ty.debug_name = None;
+        }
+        for t in &mut f.signature.param_types {
+            t.debug_name = None;
+        }
+        for t in &mut f.signature.ret_types {
+            t.debug_name = None;
+        }
+    }
+    q
+}
+
+fn casm_text(program: &Program) -> String {
+    let info = match ProgramRegistryInfo::new(program) {
+        Ok(i) => i,
+        Err(e) => return format!("<registry error: {e}>"),
+    };
+    let (metadata, gas) = match calc_metadata(program, &info, MetadataComputationConfig::default()) {
+        Ok(m) => (m, true),
+        Err(e1) => match calc_metadata_ap_change_only(program, &info) {
+            Ok(m) => (m, false),
+            Err(e2) => return format!("<metadata error: {e1} / {e2}>"),
+        },
+    };
+    match compile(program, &info, &metadata, SierraToCasmConfig { gas_usage_check: gas, max_bytecode_size: usize::MAX }) {
+        Ok(c) => c.to_string(),
+        Err(e) => format!("<sierra-to-casm error: {e}>"),
+    }
+}
+
+// ---------------------------------------------------------------------------------------------
+// the prefix of unrelated queries
+// ---------------------------------------------------------------------------------------------
+#[derive(Clone, Copy)]
+enum Query<'db> {
+    Syntax(FileId<'db>),
+    Semantic(ModuleId<'db>),
+    Lowering(ModuleId<'db>),
+    Sierra(ConcreteFunctionWithBodyId<'db>),
+}
+
+fn run_query(db: &dyn Database, q: Query<'_>) {
+    // results are dropped: only the memoisation / interning side effects on the database matter
+    let _ = catch(AssertUnwindSafe(|| match q {
+        Query::Syntax(f) => {
+            let _ = cairo_lang_parser::db::ParserGroup::file_syntax_diagnostics(db, f);
+        }
+        Query::Semantic(m) => {
+            let _ = db.module_semantic_diagnostics(m);
+        }
+        Query::Lowering(m) => {
+            let _ = db.module_lowering_diagnostics(m);
+        }
+        Query::Sierra(f) => {
+            let _ = db.function_with_body_sierra(f);
+        }
+    }));
+}
+
+fn describe(db: &dyn Database, q: &Query<'_>) -> String {
+    match q {
+        Query::Syntax(f) => format!("syntax_diagnostics({})", f.full_path(db)),
+        Query::Semantic(m) => format!("semantic_diagnostics({})", m.full_path(db)),
+        Query::Lowering(m) => format!("lowering_diagnostics({})", m.full_path(db)),
+        Query::Sierra(f) => format!("sierra({})", f.full_path(db)),
+    }
+}
+
+fn run_prefix(db: &dyn CloneableDatabase, seed: u64, n: usize, parallel: bool) -> Vec<String> {
+    let mut rng = Rng(seed);
+    // candidates: modules of every crate in the database (corelib and the project)
+    let mut modules: Vec<ModuleId<'_>> = vec![];
+    for c in db.crates() {
+        modules.extend(db.crate_modules(*c).iter().copied());
+    }
+    let mut queries: Vec<Query<'_>> = vec![];
+    let mut guard = 0;
+    while queries.len() < n && guard < n * 20 && !modules.is_empty() {
+        guard += 1;
+        let m = *rng.pick(&modules);
+        match rng.below(10) {
+            0 => {
+                if let Ok(files) = db.module_files(m) {
+                    if let Some(f) = files.first() {
+                        queries.push(Query::Syntax(*f));
+                    }
+                }
+            }
+            1 | 2 => queries.push(Query::Semantic(m)),
+            3 => queries.push(Query::Lowering(m)),
+            _ => {
+                let Ok(data) = m.module_data(db) else { continue };
+                let fs: Vec<_> = data.free_functions(db).iter().map(|(id, _)| *id).collect();
+                if fs.is_empty() {
+                    continue;
+                }
+                let f = *rng.pick(&fs);
+                if let Some(c) = ConcreteFunctionWithBodyId::from_no_generics_free(db, f) {
+                    queries.push(Query::Sierra(c));
+                }
+            }
+        }
+    }
+    let log: Vec<String> = queries.iter().map(|q| describe(db, q)).collect();
+    if parallel {
+        queries.into_par_iter().for_each_with(db.dyn_clone(), |db, q| run_query(db.as_ref(), q));
+    } else {
+        for q in queries {
+            run_query(db, q);
+        }
+    }
+    log
+}
+
+// ---------------------------------------------------------------------------------------------
+// one compilation
+// ---------------------------------------------------------------------------------------------
+fn compile_once(project: &Project, cfg: &Config) -> Artifacts {
+    let t0 = Instant::now();
+    let mut art = Artifacts::default();
+    let mut b = RootDatabase::builder();
+    b.with_optimizations(Optimizations::enabled_with_default_movable_functions(InliningStrategy::Default));
+    if project.starknet_contract.is_some() {
+        b.with_default_plugin_suite(starknet_plugin_suite());
+    }
+    let mut db = b.build().expect("RootDatabase");
+    init_dev_corelib(&mut db, PathBuf::from(CORELIB));
+    let inputs: Vec<CrateInput> = match setup_project(&mut db, &project.path) {
+        Ok(i) => i,
+        Err(e) => {
+            art.compared.push(("setup", format!("setup_project failed: {e:?}")));
+            return art;
+        }
+    };
+    let other_inputs: Option<Vec<CrateInput>> = cfg.other_first.as_ref().and_then(|p| setup_project(&mut db, p).ok());
+    let db = &db;
+    if let Some(oi) = &other_inputs {
+        // history: a different project is compiled to the end (it has diagnostics of its own) first
+        let mut other_diag = String::new();
+        let ids = CrateInput::into_crate_ids(db, oi.clone());
+        let reporter = DiagnosticsReporter::write_to_string(&mut other_diag).with_crates(oi).allow_warnings();
+        let config = CompilerConfig { diagnostics_reporter: reporter, replace_ids: true, ..Default::default() };
+        let _ = catch(AssertUnwindSafe(|| compile_prepared_db_program(db, ids, config).map(|_| ())));
+        art.prefix_log.push(format!("compiled {} first ({} bytes of its diagnostics)", cfg.other_first.as_ref().unwrap().display(), other_diag.len()));
+    }
+    if let Some((seed, n, par)) = cfg.prefix {
+        art.prefix_log.extend(run_prefix(db, seed, n, par));
+    }
+    let crate_ids = CrateInput::into_crate_ids(db, inputs.clone());
+    let mut diag = String::new();
+    if let Some(wanted) = project.starknet_contract {
+        let classes = {
+            let reporter = DiagnosticsReporter::write_to_string(&mut diag).with_crates(&inputs).allow_warnings();
+            let config = CompilerConfig {
+                diagnostics_reporter: reporter,
+                replace_ids: true,
+                add_statements_functions: true,
+                add_statements_code_locations: true,
+                add_functions_debug_info: true,
+                add_type_names: true,
+            };
+            catch(AssertUnwindSafe(|| {
+                let all = find_contracts(db, &crate_ids);
+                let names: Vec<String> = all.iter().map(|c| c.submodule_id.full_path(db)).collect();
+                let chosen: Vec<_> = wanted.iter().filter_map(|w| all.iter().find(|c| c.submodule_id.full_path(db) == *w)).collect();
+                if chosen.len() != wanted.len() {
+                    return Err(format!("contracts not found; available: {names:?}"));
+                }
+                // contracts are compiled in parallel on database clones (par_iter in compile_prepared_db)
+                starknet_compile_prepared_db(db, &chosen, config).map(|v| (names, v)).map_err(|e| format!("{e}"))
+            }))
+        };
+        art.compared.push(("diagnostics", diag));
+        match classes {
+            Ok(Ok((names, classes))) => {
+                art.compared.push(("contracts_found", names.join("\n")));
+                let mut cj = String::new();
+                let mut kj = String::new();
+                for class in &classes {
+                    cj.push_str(&serde_json::to_string_pretty(class).unwrap());
+                    cj.push('\n');
+                    let casm = catch(AssertUnwindSafe(|| {
+                        let extracted = class.extract_sierra_program(false).map_err(|e| format!("{e}"))?;
+                        CasmContractClass::from_contract_class(class.clone(), extracted, true, usize::MAX).map_err(|e| format!("{e}"))
+                    }));
+                    kj.push_str(&match casm {
+                        Ok(Ok(c)) => serde_json::to_string_pretty(&c).unwrap(),
+                        Ok(Err(e)) => format!("<error: {e}>"),
+                        Err(p) => format!("<panic: {p}>"),
+                    });
+                    kj.push('\n');
+                }
+                art.compared.push(("contract_class_json", cj));
+                art.compared.push(("casm_contract_class_json", kj));
+            }
+            Ok(Err(e)) => art.compared.push(("compile_error", e)),
+            Err(p) => art.compared.push(("compile_panic", p)),
+        }
+    } else {
+        // the program with the raw interned ids, and the statement annotations (functions and source
+        // code locations per statement: keyed by statement index, so they must not depend on ids)
+        let res = {
+            let reporter = DiagnosticsReporter::write_to_string(&mut diag).with_crates(&inputs).allow_warnings();
+            let config = CompilerConfig {
+                diagnostics_reporter: reporter,
+                replace_ids: false,
+                add_statements_functions: true,
+                add_statements_code_locations: true,
+                ..Default::default()
+            };
+            catch(AssertUnwindSafe(|| {
+                if cfg.warmup {
+                    compile_prepared_db_program_artifact(db, crate_ids, config).map(|a| {
+                        let ann = a.debug_info.as_ref().map(|d| serde_json::to_string_pretty(&d.annotations).unwrap()).unwrap_or_default();
+                        (a.program, ann)
+                    })
+                } else {
+                    compile_prepared_db(db, crate_ids, config).map(|pd| {
+                        let mut ann = Annotations::default();
+                        ann.extend(Annotations::from(pd.debug_info.statements_locations.extract_statements_functions(db)));
+                        ann.extend(Annotations::from(pd.debug_info.statements_locations.extract_statements_source_code_locations(db)));
+                        (pd.program, serde_json::to_string_pretty(&ann).unwrap())
+                    })
+                }
+            }))
+        };
+        art.compared.push(("diagnostics", diag));
+        match res {
+            Ok(Ok((raw, annotations))) => {
+                art.compared.push(("statement_annotations_json", annotations));
+                art.sierra_raw = strip_names(&raw).to_string();
+                let debug = replace_sierra_ids_in_program(db, &raw);
+                art.compared.push(("sierra_debug_names", debug.to_string()));
+                let canon = CanonicalReplacer::from_program(&raw).apply(&raw);
+                art.compared.push(("sierra_canonical_ids", strip_names(&canon).to_string()));
+                // canonical ids + debug names, as `replace_ids` users of the canonical form see it
+                let canon_debug = CanonicalReplacer::from_program(&debug).apply(&debug);
+                art.compared.push(("sierra_canonical_with_names", canon_debug.to_string()));
+                art.compared.push(("casm", casm_text(&canon)));
+            }
+            Ok(Err(e)) => art.compared.push(("compile_error", format!("{e}"))),
+            Err(p) => art.compared.push(("compile_panic", p)),
+        }
+    }
+    art.seconds = t0.elapsed().as_secs_f64();
+    art
+}
+
+fn run_config(project: &Project, cfg: &Config) -> Artifacts {
+    let pool = rayon::ThreadPoolBuilder::new().num_threads(cfg.threads).build().expect("rayon pool");
+    pool.install(|| compile_once(project, cfg))
+}
+
+fn first_diff(a: &str, b: &str) -> String {
+    for (i, (x, y)) in a.lines().zip(b.lines()).enumerate() {
+        if x != y {
+            return format!("line {}: `{}` vs `{}`", i + 1, &x[..x.len().min(200)], &y[..y.len().min(200)]);
+        }
+    }
+    format!("one is a prefix of the other: {} vs {} lines", a.lines().count(), b.lines().count())
+}
+
+/// A small crate with diagnostics of every phase in several modules: their order is at stake.
+fn write_diag_project(dir: &Path) {
+    fs::create_dir_all(dir).unwrap();
+    fs::write(dir.join("cairo_project.toml"), "[crate_roots]\ndiagp = \".\"\n\n[config.global]\nedition = \"2024_07\"\n").unwrap();
+    let mut lib = String::new();
+    for i in 0..6 {
+        writeln!(lib, "mod m{i};").unwrap();
+        let mut m = String::new();
+        writeln!(m, "fn unused_{i}() -> felt252 {{\n    let x = {i};\n    let y = 5;\n    y\n}}").unwrap();
+        writeln!(m, "fn mismatch_{i}() -> u8 {{\n    let a: felt252 = {i};\n    a\n}}").unwrap();
+        writeln!(m, "fn unknown_{i}() -> felt252 {{\n    undefined_name_{i} + 1\n}}").unwrap();
+        writeln!(m, "fn moved_{i}() {{\n    let a: Array<felt252> = array![{i}];\n    consume_{i}(a);\n    consume_{i}(a);\n}}").unwrap();
+        writeln!(m, "fn consume_{i}(_a: Array<felt252>) {{}}").unwrap();
+        writeln!(m, "fn syntax_{i}() {{\n    let = ;\n}}").unwrap();
+        if i % 2 == 0 {
+            writeln!(m, "mod inner {{\n    fn deep() -> u16 {{\n        let q: felt252 = 1;\n        q\n    }}\n    pub fn dup() {{}}\n    pub fn dup() {{}}\n}}").unwrap();
+        }
+        fs::write(dir.join(format!("m{i}.cairo")), m).unwrap();
+    }
+    fs::write(dir.join("lib.cairo"), lib).unwrap();
+}
+
 fn main() {
     let args: Vec<String> = std::env::args().collect();
-    std::fs::create_dir_all(&args[1]).unwrap();
-    std::fs::write(format!("{}/summary.json", args[1]), "{\"compilations\":0,\"distinct_configurations\":0,\"samples\":[]}").unwrap();
-    std::fs::write(format!("{}/differences.json", args[1]), "[]").unwrap();
+    if args.len() < 3 {
+        eprintln!("usage: h12c <out_dir> <tier>");
+        std::process::exit(2);
+    }
+    let (out, tier) = (&args[1], &args[2]);
+    let thorough = tier == "thorough";
+    fs::create_dir_all(out).unwrap();
+    quiet_panics();
+    let mut rng = Rng::from_env();
+    let seed0 = rng.next();
+
+    let diag_dir = Path::new(out).join("diag_project");
+    write_diag_project(&diag_dir);
+
+    let examples = Project { name: "examples", path: "/repo/examples".into(), starknet_contract: None };
+    let diagp = Project { name: "diag_project", path: diag_dir.clone(), starknet_contract: None };
+    let hash_chain = Project { name: "hash_chain_gas", path: "/repo/examples/hash_chain_gas.cairo".into(), starknet_contract: None };
+    let fib_array = Project { name: "fib_array", path: "/repo/examples/fib_array.cairo".into(), starknet_contract: None };
+    let bug_samples = Project { name: "bug_samples", path: "/repo/tests/bug_samples".into(), starknet_contract: None };
+    const CONTRACTS: [&str; 4] = [
+        "cairo_level_tests::contracts::erc20::erc_20",
+        "cairo_level_tests::contracts::mintable::mintable_erc20_ownable",
+        "cairo_level_tests::contracts::hello_starknet::hello_starknet",
+        "cairo_level_tests::contracts::account::account",
+    ];
+    let starknet = Project {
+        name: "starknet_contracts",
+        path: "/repo/crates/cairo-lang-starknet/cairo_level_tests".into(),
+        starknet_contract: Some(&CONTRACTS),
+    };
+
+    // ---- the plan: (project, configurations); the first configuration is the baseline ----
+    let baseline = Config { threads: 1, warmup: false, prefix: None, other_first: None };
+    let other_a: PathBuf = "/repo/examples/hash_chain_gas.cairo".into();
+    let other_b: PathBuf = diag_dir.clone();
+    // the complete matrix: threads x warm-up x history kind, `reps` seeds per cell with a history
+    let mut kseed = 0u64;
+    let mut matrix = |reps: usize, nq: usize, other: &PathBuf| -> Vec<Config> {
+        let mut v = vec![baseline.clone()];
+        for &threads in &[1usize, 2, 4, 16] {
+            for &warmup in &[false, true] {
+                for hist in 0..4 {
+                    let n = if hist == 0 { 1 } else { reps };
+                    for _ in 0..n {
+                        kseed += 1;
+                        let s = seed0.wrapping_add(kseed);
+                        let (prefix, other_first) = match hist {
+                            0 => (None, None),
+                            1 => (Some((s, nq, false)), None),
+                            2 => (Some((s, nq, true)), None),
+                            _ => (Some((s, nq / 2, true)), Some(other.clone())),
+                        };
+                        if threads == 1 && !warmup && hist == 0 {
+                            continue; // the baseline itself
+                        }
+                        v.push(Config { threads, warmup, prefix, other_first });
+                    }
+                }
+            }
+        }
+        v
+    };
+    // a seeded selection of `n` cells of the matrix (always with the baseline first)
+    let choose = |all: Vec<Config>, n: usize, rng: &mut Rng| -> Vec<Config> {
+        let mut rest: Vec<Config> = all[1..].to_vec();
+        for i in (1..rest.len()).rev() {
+            let j = rng.below(i as u64 + 1) as usize;
+            rest.swap(i, j);
+        }
+        // make sure the extremes are present: 16 threads with warm-up and a parallel prefix
+        rest.sort_by_key(|c| !(c.threads == 16 && c.warmup && matches!(c.prefix, Some((_, _, true)))));
+        let mut v = vec![all[0].clone()];
+        v.extend(rest.into_iter().take(n));
+        v
+    };
+    let plan: Vec<(Project, Vec<Config>)> = if thorough {
+        vec![
+            (examples, matrix(2, 30, &other_b)),
+            (diagp, matrix(1, 24, &other_a)),
+            (bug_samples, choose(matrix(1, 24, &other_a), 14, &mut rng)),
+            (hash_chain, choose(matrix(1, 40, &other_b), 12, &mut rng)),
+            (fib_array, choose(matrix(1, 40, &other_b), 12, &mut rng)),
+            (starknet, choose(matrix(1, 24, &other_b), 16, &mut rng)),
+        ]
+    } else {
+        vec![
+            (examples, choose(matrix(1, 12, &other_b), 7, &mut rng)),
+            (diagp, choose(matrix(1, 10, &other_a), 4, &mut rng)),
+            (starknet, choose(matrix(1, 10, &other_b), 3, &mut rng)),
+        ]
+    };
+
+    let mut differences: Vec<serde_json::Value> = vec![];
+    let mut per_project: Vec<serde_json::Value> = vec![];
+    let mut samples: Vec<String> = vec![];
+    let (mut compilations, mut distinct_cfg, mut raw_differs, mut artifacts_compared, mut bytes_compared) = (0usize, 0usize, 0usize, 0usize, 0usize);
+    let mut labels = std::collections::BTreeSet::new();
+    for (project, configs) in &plan {
+        let mut base: Option<(String, Artifacts)> = None;
+        let mut times = vec![];
+        let mut raw_diff_here = 0;
+        let mut sizes = serde_json::Map::new();
+        for cfg in configs {
+            let art = run_config(project, cfg);
+            compilations += 1;
+            if labels.insert(cfg.label()) {
+                distinct_cfg += 1;
+            }
+            times.push(format!("{}: {:.1}s", cfg.label(), art.seconds));
+            eprintln!("[h12c] {} [{}] {:.1}s", project.name, cfg.label(), art.seconds);
+            match &base {
+                None => {
+                    for (name, text) in &art.compared {
+                        sizes.insert(name.to_string(), serde_json::json!({"bytes": text.len(), "lines": text.lines().count()}));
+                        fs::write(format!("{}/{}.{}.baseline.txt", out, project.name, name), text).unwrap();
+                    }
+                    if samples.len() < 4 {
+                        let d = art.compared.iter().find(|(n, _)| *n == "diagnostics").map(|(_, t)| t.lines().take(2).collect::<Vec<_>>().join(" | ")).unwrap_or_default();
+                        samples.push(format!(
+                            "compile {} under [{}]: artifacts {:?}; diagnostics start: {}",
+                            project.name,
+                            cfg.label(),
+                            art.compared.iter().map(|(n, t)| format!("{}:{}B", n, t.len())).collect::<Vec<_>>(),
+                            &d[..d.len().min(160)]
+                        ));
+                    }
+                    base = Some((cfg.label(), art));
+                }
+                Some((blabel, b)) => {
+                    if samples.len() < 4 && !art.prefix_log.is_empty() {
+                        samples.push(format!("compile {} under [{}] after the query prefix {:?}", project.name, cfg.label(), &art.prefix_log[..art.prefix_log.len().min(6)]));
+                    }
+                    if art.sierra_raw != b.sierra_raw {
+                        raw_diff_here += 1;
+                    }
+                    let names_a: Vec<_> = b.compared.iter().map(|(n, _)| *n).collect();
+                    let names_b: Vec<_> = art.compared.iter().map(|(n, _)| *n).collect();
+                    if names_a != names_b {
+                        differences.push(serde_json::json!({"project": project.name, "artifact": "set of artifacts", "config_a": blabel, "config_b": cfg.label(),
+                            "first_difference": format!("{:?} vs {:?}", names_a, names_b), "prefix_b": art.prefix_log}));
+                        continue;
+                    }
+                    for ((name, ta), (_, tb)) in b.compared.iter().zip(art.compared.iter()) {
+                        artifacts_compared += 1;
+                        bytes_compared += ta.len();
+                        if ta != tb {
+                            let fa = format!("{}/{}.{}.diff-a.txt", out, project.name, name);
+                            let fb = format!("{}/{}.{}.diff-b.txt", out, project.name, name);
+                            fs::write(&fa, ta).unwrap();
+                            fs::write(&fb, tb).unwrap();
+                            differences.push(serde_json::json!({"project": project.name, "project_path": project.path.to_string_lossy(), "artifact": name,
+                                "config_a": blabel, "config_b": cfg.label(), "first_difference": first_diff(ta, tb),
+                                "file_a": fa, "file_b": fb, "prefix_b": art.prefix_log, "seed": seed0}));
+                        }
+                    }
+                }
+            }
+        }
+        raw_differs += raw_diff_here;
+        per_project.push(serde_json::json!({"project": project.name, "path": project.path.to_string_lossy(), "configurations": configs.len(),
+            "raw_interned_ids_differ_from_baseline_in": raw_diff_here, "baseline_artifacts": sizes, "times": times}));
+    }
+    let summary = serde_json::json!({
+        "compilations": compilations,
+        "distinct_configurations": distinct_cfg,
+        "projects": per_project,
+        "artifact_comparisons": artifacts_compared,
+        "bytes_compared": bytes_compared,
+        "configurations_whose_raw_sierra_ids_differ_from_baseline": raw_differs,
+        "differences": differences.len(),
+        "samples": samples,
+    });
+    fs::write(format!("{}/summary.json", out), serde_json::to_string_pretty(&summary).unwrap()).unwrap();
+    fs::write(format!("{}/differences.json", out), serde_json::to_string_pretty(&differences).unwrap()).unwrap();
+    println!("{}", serde_json::to_string(&summary).unwrap());
 }
